@@ -106,6 +106,13 @@ func (c *Ctx) fld(role string) string {
 				continue
 			}
 			if !c.fieldTypeMatches(spec.pkg, f.Type(), spec.typeStr) {
+				// fields grouped into an unexported struct of the package that the type holds by value in
+				// an unexported field (`in byteSource`) still are state of the type
+				if en, ok := f.Type().(*types.Named); ok && !f.Exported() && en.Obj().Pkg() == t.Pkg() && !en.Obj().Exported() {
+					if _, isStruct := en.Underlying().(*types.Struct); isStruct {
+						collect(en.Obj(), depth+1)
+					}
+				}
 				continue
 			}
 			if spec.mark != nil && !spec.mark(c, t, f) {
@@ -229,6 +236,21 @@ func constOrChoice(v ssa.Value, depth int) bool {
 		return constOrChoice(x.X, depth+1)
 	case *ssa.ChangeType:
 		return constOrChoice(x.X, depth+1)
+	case *ssa.Call:
+		// the result of a function of the analysed program every return of which yields such a value
+		// (the choice was extracted into a helper)
+		callee := x.Call.StaticCallee()
+		if callee == nil || len(callee.Blocks) == 0 || callee.Signature.Results().Len() != 1 {
+			return false
+		}
+		n := 0
+		for _, r := range returns(callee) {
+			if len(r.Results) != 1 || !constOrChoice(r.Results[0], depth+1) {
+				return false
+			}
+			n++
+		}
+		return n > 0
 	}
 	return false
 }
@@ -283,6 +305,14 @@ func (c *Ctx) fieldTypeMatches(pkg string, t types.Type, want string) bool {
 	if n, ok := t.(*types.Named); ok && !n.Obj().Exported() {
 		if b, ok := n.Underlying().(*types.Basic); ok && b.Name() == want {
 			return true
+		}
+		// likewise a new unexported named type over the same slice or map type (`procStart []int`
+		// that became `openBraces braceStack`, with methods for push and pop)
+		switch n.Underlying().(type) {
+		case *types.Slice, *types.Map:
+			if types.TypeString(n.Underlying(), relQual) == want {
+				return true
+			}
 		}
 	}
 	// a fixed-size array in place of a slice of the same elements (a buffer of constant size)
